@@ -1,15 +1,36 @@
 #!/bin/bash
-# tools/seed_all.sh [seed-id-prefix] — applies every seeded change under /verif/seeded to a scratch copy of /repo,
-# runs the quick check of the property it was written against and writes one line per change to seeded/RESULTS.txt
-# (exit code of the check, violated assertion). A change counts as caught iff the check exits 1 with a VIOLATION line.
+# tools/seed_all.sh [seed-id-prefix …] — applies seeded changes under /verif/seeded (all, or those whose id starts
+# with one of the prefixes) to a scratch copy of /repo, runs the quick check of the property each was written against
+# and merges one line per change into seeded/RESULTS.txt (exit code of the check, violated assertion).
+# A change counts as caught iff the check exits 1 with a VIOLATION line.
 cd "$(dirname "$0")/.."
 OUT=seeded/RESULTS.txt; TMP=$(mktemp)
-for D in seeded/${1:-}*/; do
-  ID=$(basename $D); [ -f $D/meta.json ] || continue
-  P=$(python3 -c "import json;print(json.load(open('$D/meta.json'))['property'])")
-  S=$(date +%s)
-  LINE=$(timeout 1200 tools/seed_check.sh $ID $P 2>&1 | head -1 | cut -c1-260)
-  echo "$LINE ($(( $(date +%s) - S ))s)" | tee -a $TMP
+PREFIXES=${@:-""}
+for PFX in $PREFIXES ""; do
+  [ -z "$PFX" ] && [ -n "$*" ] && continue
+  for D in seeded/${PFX}*/; do
+    ID=$(basename $D); [ -f $D/meta.json ] || continue
+    P=$(python3 -c "import json;print(json.load(open('$D/meta.json'))['property'])")
+    S=$(date +%s)
+    LINE=$(timeout 1200 tools/seed_check.sh $ID $P 2>&1 | head -1 | cut -c1-260)
+    echo "$LINE ($(( $(date +%s) - S ))s)" | tee -a $TMP
+  done
 done
-if [ -z "${1:-}" ]; then { echo "# seeded change, check of its own property, exit code (1 = caught), first violated assertion — $(date -u +%F)"; cat $TMP; } > $OUT; fi
-echo "caught: $(grep -c 'rc=1 VIOLATION' $TMP) of $(wc -l < $TMP)"; rm -f $TMP
+python3 - "$OUT" "$TMP" <<'PY'
+import sys,re,datetime
+out,tmp=sys.argv[1],sys.argv[2]
+lines={}
+try:
+    for l in open(out):
+        m=re.match(r'seed (\S+) check',l)
+        if m: lines[m.group(1)]=l.rstrip('\n')
+except FileNotFoundError: pass
+for l in open(tmp):
+    m=re.match(r'seed (\S+) check',l)
+    if m: lines[m.group(1)]=l.rstrip('\n')
+with open(out,'w') as f:
+    f.write("# seeded change, check of its own property, exit code (1 = caught), first violated assertion — last update %s\n"%datetime.date.today())
+    for k in sorted(lines): f.write(lines[k]+"\n")
+print("caught: %d of %d"%(sum('rc=1 VIOLATION' in v for v in lines.values()),len(lines)))
+PY
+rm -f $TMP
